@@ -181,6 +181,8 @@ HAND = [
     ('strinit-bad5', 'char a[] = u"ab";\n', 'reject', None),
     ('strinit-bad6', 'float a[] = U"ab";\n', 'reject', None),
     ('strinit-ok', 'unsigned short a[] = u"ab"; unsigned b[] = U"ab"; unsigned char c[] = "ab"; signed char d[] = "ab"; char e[] = u8"ab"; unsigned char f[] = u8"ab"; const unsigned short g[3] = u"ab";\nint k = sizeof a + sizeof b + sizeof c;\n', {'k': 21}, None),
+    ('tag-shadow-bad1', 'struct S { int a; } g; void f(void) { struct S { float a; } *p; p = &g; }\n', 'reject', None),
+    ('tag-shadow-bad2', 'struct S { int a; } g; void h(struct S *); void f(void) { struct S { int a; } l; h(&l); }\n', 'reject', None),
     ('decay-qual-bad1', 'struct S { int a[2]; }; const struct S cs; void f(void) { int *p = cs.a; }\n', 'reject', None),
     ('decay-qual-bad2', 'typedef int T[2]; const T ct; void g(int *); void f(void) { g(ct); }\n', 'reject', None),
     ('decay-qual-ok', 'struct S { int a[2]; }; const struct S cs; struct S s; void g(const int *); void f(void) { const int *p = cs.a; int *q = s.a; g(cs.a); g(q); }\nint a = 1;\n', {'a': 1}, None),
